@@ -194,6 +194,36 @@ func ntpField(ns int64) uint32 {
 	return uint32(ntp>>14) & 0xFFFFFF
 }
 
+// ownSequencer is a Sequencer written by the caller: hands out next, next+1, ...
+type ownSequencer struct {
+	mu   sync.Mutex
+	next uint16
+	roll uint64
+}
+
+func (s *ownSequencer) NextSequenceNumber() uint16 {
+	s.mu.Lock()
+	defer s.mu.Unlock()
+	v := s.next
+	s.next++
+	if v == 0 {
+		s.roll++
+	}
+	return v
+}
+
+func (s *ownSequencer) RollOverCount() uint64 {
+	s.mu.Lock()
+	defer s.mu.Unlock()
+	return s.roll
+}
+
+// wrapSequencer delegates to a library sequencer (what an application does to log or share numbers).
+type wrapSequencer struct{ inner rtp.Sequencer }
+
+func (s *wrapSequencer) NextSequenceNumber() uint16 { return s.inner.NextSequenceNumber() }
+func (s *wrapSequencer) RollOverCount() uint64      { return s.inner.RollOverCount() }
+
 func c06Seq(c *fw.Ctx, i int) {
 	r := c.R
 	pk := i % len(c06PayloaderNames)
@@ -206,8 +236,20 @@ func c06Seq(c *fw.Ctx, i int) {
 		start = uint16(r.Pick(0, 1, 65530, 65535, 65533, r.Intn(65536)))
 	}
 	var seq rtp.Sequencer
+	seqKind := "library"
 	if fixed {
 		seq = rtp.NewFixedSequencer(start)
+		switch r.Intn(5) {
+		case 0:
+			seqKind = "caller-supplied"
+			// Sequencer is an interface: a caller-supplied implementation must be served exactly like the built-in one
+			seq = &ownSequencer{next: start}
+			c.Count("runs_with_caller_supplied_sequencer", 1)
+		case 1:
+			seqKind = "wrapped-library-sequencer"
+			seq = &wrapSequencer{inner: seq}
+			c.Count("runs_with_wrapped_sequencer", 1)
+		}
 	} else {
 		seq = rtp.NewRandomSequencer()
 	}
@@ -259,7 +301,7 @@ func c06Seq(c *fw.Ctx, i int) {
 	maxFrags := 0
 	didPadding := false
 	wit := func(extra ...any) map[string]any {
-		m := fw.W("payloader", c06PayloaderNames[pk], "mtu", mtu, "pt", pt, "ssrc", ssrc, "fixed_sequencer", fixed, "start", start, "abs_send_time_id", absID, "ops", append([]string{}, trace...))
+		m := fw.W("payloader", c06PayloaderNames[pk], "mtu", mtu, "pt", pt, "ssrc", ssrc, "fixed_sequencer", fixed, "sequencer", seqKind, "start", start, "abs_send_time_id", absID, "ops", append([]string{}, trace...))
 		for q := 0; q+1 < len(extra); q += 2 {
 			m[fmt.Sprint(extra[q])] = extra[q+1]
 		}
